@@ -123,6 +123,20 @@ def run_thorough(prop, pc, units, seed):
             bad = [v for v in vac if v not in failed] if r["status"] == "ok" else []
             out["vacuity"][u] = {"twins": len(vac), "failed_as_expected": len([v for v in vac if v in failed]), "status": r["status"]}
             out["vacuous"] += [f"{u}::{v}" for v in bad]
+    # (c2) reachability audit: probes at every loop body start/end and at the returns of every extracted function must be reachable
+    # under the contracts in front of them (an inconsistent stand-in contract or invariant makes everything behind it verify)
+    out["reach"] = {}
+    out["unreachable_points"] = []
+    try:
+        pr = subprocess.run([sys.executable, os.path.join(VERIF, "lib", "hqreach.py")] + list(units), capture_output=True, text=True, timeout=3000,
+                            env=dict(os.environ, HQ_REACH="1", HQ_REACH_JSON="1"))
+        for line in pr.stdout.splitlines():
+            if line.startswith("REACH-JSON "):
+                out["reach"] = json.loads(line[len("REACH-JSON "):])
+        for u, r in out["reach"].items():
+            out["unreachable_points"] += [f"{u}: {x}" for x in r["unexplained"]] + ([] if r["ran"] else [f"{u}: audit did not run"])
+    except Exception as e:  # the audit is additional evidence; its failure to run is reported, not hidden
+        out["reach"] = {"error": str(e)[:200]}
     known0 = hqcheck.load_known()
 
     def _base_rc(u):
@@ -221,6 +235,7 @@ def run_thorough(prop, pc, units, seed):
     out["weak_contracts"] = [r["id"] for r in out["mutants"] if r["result"] == "SURVIVED"]
     out["mutants_killed"] = sum(1 for r in out["mutants"] if r["result"] == "killed")
     out["mutants_total"] = len(out["mutants"])
+    print(f"{prop}: thorough: reachability probes={sum(r.get('probes', 0) for r in out['reach'].values() if isinstance(r, dict))} unexplained_unreachable={out['unreachable_points']}")
     print(f"{prop}: thorough: vacuity twins={sum(v['twins'] for v in out['vacuity'].values())} vacuous={out['vacuous']}")
     print(f"{prop}: thorough: harmless refactorings={len(out['harmless'])} false_alarms={out['false_alarms_on_harmless']} "
           f"undecided={[r['id'] for r in out['harmless'] if r['result'] == 'undecided']}")
@@ -391,6 +406,8 @@ def main(argv):
         thorough = run_thorough(prop, pc, units, seed)
         for v in thorough.get("vacuous", []):
             undecided.append(f"VACUOUS precondition (its vacuity twin verified): {v}")
+        for v in thorough.get("unreachable_points", []):
+            undecided.append(f"UNREACHABLE point (a reachability probe verified; contradictory context in front of it?): {v}")
 
     wall = time.time() - t0
     os.makedirs(os.path.join(VERIF, "evidence"), exist_ok=True)
